@@ -2,7 +2,7 @@
    payload conventions: alts = list of N; profile = list of flat strict rankings (best first);
    axes = list of lists of N; option = () | (x). *)
 From Coq Require Import List ZArith NArith String.
-From PrefVerif Require Import Lib.Val Model.SP Model.Partition.
+From PrefVerif Require Import Lib.Val Model.SP Model.Partition Model.PartitionAlgo.
 Import ListNotations.
 Open Scope string_scope.
 
@@ -28,5 +28,13 @@ Definition op18_bf (v : val) : val :=
 Definition op18_block (v : val) : val :=
   ebool (block_sp (d18_profile (dnth 1 v)) (d18_alts (dnth 2 v))).
 
+(* (alts profile (k ...) hint) -> (option-partition ...) : the mirror of k_alternative_partition_brut_force for every k;
+   hint = the alternatives in the order in which Python iterates the L-sets (order parameter of the mirror) *)
+Definition op18_bf_algo (v : val) : val :=
+  let alts := d18_alts (dnth 0 v) in
+  let profile := d18_profile (dnth 1 v) in
+  let hint := d18_alts (dnth 3 v) in
+  elist (fun k => eoption (elist (elist eN)) (bf_algo (hint_order hint) alts profile k)) (dlist dnat (dnth 2 v)).
+
 Definition ops : optable :=
-  [ ("c18.check", op18_check); ("c18.min", op18_min); ("c18.bf", op18_bf); ("c18.block", op18_block) ].
+  [ ("c18.check", op18_check); ("c18.min", op18_min); ("c18.bf", op18_bf); ("c18.block", op18_block); ("c18.bf_algo", op18_bf_algo) ].
